@@ -670,6 +670,14 @@ impl Filter {
     }
 }
 
+/// the id as from_json reads it back: the bytes up to the trailing zero padding (Display would replace
+/// non printable bytes and stop at the first zero)
+fn char4_as_json_str(c: &DltChar4) -> String {
+    let buf = c.as_buf();
+    let len = buf.iter().rposition(|b| *b != 0).map_or(0, |p| p + 1);
+    buf[..len].iter().map(|b| *b as char).collect()
+}
+
 impl Serialize for Filter {
     fn serialize<S>(&self, serializer: S) -> Result<S::Ok, S::Error>
     where
@@ -691,7 +699,7 @@ impl Serialize for Filter {
         if let Some(s) = &self.ecu {
             match s {
                 Char4OrRegex::DltChar4(dltc4) => {
-                    state.serialize_field("ecu", &dltc4)?;
+                    state.serialize_field("ecu", &char4_as_json_str(dltc4))?;
                     state.serialize_field("ecuIsRegex", &false)?;
                 }
                 Char4OrRegex::Regex(regex) => {
@@ -703,7 +711,7 @@ impl Serialize for Filter {
         if let Some(s) = &self.apid {
             match s {
                 Char4OrRegex::DltChar4(dltc4) => {
-                    state.serialize_field("apid", &dltc4)?;
+                    state.serialize_field("apid", &char4_as_json_str(dltc4))?;
                     state.serialize_field("apidIsRegex", &false)?;
                 }
                 Char4OrRegex::Regex(regex) => {
@@ -715,7 +723,7 @@ impl Serialize for Filter {
         if let Some(s) = &self.ctid {
             match s {
                 Char4OrRegex::DltChar4(dltc4) => {
-                    state.serialize_field("ctid", &dltc4)?;
+                    state.serialize_field("ctid", &char4_as_json_str(dltc4))?;
                     state.serialize_field("ctidIsRegex", &false)?;
                 }
                 Char4OrRegex::Regex(regex) => {
